@@ -138,10 +138,14 @@ impl Duration {
 
 // R2: IEEE-754 arithmetic. Verus gives f64 operators an unprovable precondition and no postcondition, so the float arms call
 // these trampolines (declared rewrites); what they compute is decided by the Kani twins on the compiled crate.
-#[verifier::external_body] pub fn f64_add(a: f64, b: f64) -> f64 { a + b }
-#[verifier::external_body] pub fn f64_sub(a: f64, b: f64) -> f64 { a - b }
-#[verifier::external_body] pub fn f64_mul(a: f64, b: f64) -> f64 { a * b }
-#[verifier::external_body] pub fn f64_div(a: f64, b: f64) -> f64 { a / b }
+/// the IEEE-754 double operations (hardware semantics: uninterpreted here)
+pub uninterp spec fn ieee(op: Op, a: f64, b: f64) -> f64;
+/// a numeric operand as the double it widens to
+pub open spec fn as_f64(v: CelValue) -> f64 { match v { CelValue::Float(f) => f, _ => int_f64(int_val(v)) } }
+#[verifier::external_body] pub fn f64_add(a: f64, b: f64) -> (r: f64) ensures r == ieee(Op::Add, a, b) { a + b }
+#[verifier::external_body] pub fn f64_sub(a: f64, b: f64) -> (r: f64) ensures r == ieee(Op::Sub, a, b) { a - b }
+#[verifier::external_body] pub fn f64_mul(a: f64, b: f64) -> (r: f64) ensures r == ieee(Op::Mul, a, b) { a * b }
+#[verifier::external_body] pub fn f64_div(a: f64, b: f64) -> (r: f64) ensures r == ieee(Op::Div, a, b) { a / b }
 #[verifier::external_body] pub fn f64_neg(a: f64) -> f64 { -a }
 '''
 
@@ -197,13 +201,15 @@ def binop(op, name, other):
             ('int_result_exact_or_error', f'arith_kind({a}, {b}) is I ==> arith_int_ok(Op::{op}, {a}, {b}, {r})', N),
             ('uint_result_exact_or_error', f'arith_kind({a}, {b}) is U ==> arith_uint_ok(Op::{op}, {a}, {b}, {r})', N),
             ('double_result', f'arith_kind({a}, {b}) is F ==> ' + (f'{r} is Err' if op == 'Rem' else f'{r} is Float'), N),
+        ] + ([] if op == 'Rem' else [('double_result_is_the_ieee_operation_on_the_widened_operands',
+                                      f'arith_kind({a}, {b}) is F && !({a} is Bool) && !({b} is Bool) ==> {r} == CelValue::Float(ieee(Op::{op}, as_f64({a}), as_f64({b})))', N)]) + [
         ] + [(n, t.format(a=a, b=b, r=r), pp) for (n, t, pp) in other]
         if guard:
             cl = [(n, f'{guard} ==> ({t})', pp) for (n, t, pp) in cl]
         return cl
     arm_rw = {}
     if name in FLOAT_RW:
-        arm_rw = {'CelValue::Float(val1)': [(FLOAT_RW[name][0], FLOAT_RW[name][1], R2F)]}
+        arm_rw = {'CelValue::Float(val1)': [(o, n, R2F, 'alt') for (o, n) in FLOAT_RW.values()]}
     return A(
         ret='r',
         ensures=[('left_error_wins', 'self is Err ==> r == self', N),
